@@ -4,7 +4,7 @@
    token, = and ; attached, own-line comments and closers at the structural indent. *)
 From Coq Require Import List Ascii String Bool Arith.
 Import ListNotations.
-From F0 Require Import F0s Specs P1 P2 P3g P5 P6 P7 P8 P9 P10 P11 Canon P12 P13 Canonize P14 P15 P16a P16 P17 P18 P19.
+From F0 Require Import F0s Specs P1 P2 P3g P5 P6 P7 P8 P9 P10 P11 Canon P12 P13 Canonize P14 P15 P16a P16 P17 P18 P19 P20.
 
 Theorem C18_normal_form : forall f, wf_file f -> canonical_file (canon_file f) = true.
 Proof. exact C18_F0. Qed.
@@ -18,3 +18,12 @@ Print Assumptions C18_output.
 Theorem C18_gap_shape : forall g k, cgap g k = LF :: blank g ++ sp k.
 Proof. intros g k. reflexivity. Qed.
 Print Assumptions C18_gap_shape.
+
+(* end to end over the external parser: the tree the rebuilt text parses to is in the layout normal form *)
+Theorem C18_source : forall ts_parse : str -> option cfile,
+  (forall src f, ts_parse src = Some f -> ftext f = src) ->
+  (forall src f, ts_parse src = Some f -> wf_file f -> ts_parse (ftext (canon_file f)) = Some (canon_file f)) ->
+  forall src f, ts_parse src = Some f -> wf_file f ->
+  exists f', ts_parse (roundtrip f) = Some f' /\ canonical_file f' = true.
+Proof. exact (fun ts _ Hstable => P20.C18_source ts Hstable). Qed.
+Print Assumptions C18_source.
